@@ -140,11 +140,17 @@ def def_text(draw):
     if ind != "    ":
         feats.add("indent")
     lines = []
+    if draw(st.integers(0, 5)) == 0:
+        lines.append("# a comment line before the definition")
+        feats.add("comment")
     ndeco = draw(st.integers(0, 2))
     for _ in range(ndeco):
         d = draw(st.sampled_from(["@_ident", "@_identf(1, 2)", "@_identf(\n    1,\n    2\n)", "@_ident  # deco comment"]))
         lines += d.split("\n")
         feats.add("decorator")
+        if draw(st.integers(0, 5)) == 0:
+            lines.append("# a comment between the decorator and the definition")
+            feats.add("comment")
     ret = draw(st.sampled_from(["", " -> int"]))
     oneline = draw(st.integers(0, 7)) == 0
     if oneline:
@@ -237,6 +243,8 @@ def cases(draw):
             # lambda is not
             t["two_on_line"] = True
         t["given_name"] = "lam"
+    if t["delivery"] == "lambdaobj" and not t.get("two_on_line") and draw(st.integers(0, 3)) == 0:
+        t["rewrite"] = True
     if t["delivery"] == "source_indented":
         t["feats"] = sorted(set(t["feats"]) | {"whole-indent"})
     t["args"] = [[draw(st.integers(0, 4)) for _ in t["params"]] for _ in range(3)]
@@ -372,13 +380,34 @@ def run_case(case):
                     src += (t if t.startswith("fn = ") else "fn = " + t) + "\n"
                 else:
                     src += case["text"]
-                with open(os.path.join(tmp, modname + ".py"), "w") as f:
-                    f.write(src)
-                sys.path.insert(0, tmp)
-                try:
-                    mod = importlib.import_module(modname)
-                finally:
-                    sys.path.remove(tmp)
+                mpath = os.path.join(tmp, modname + ".py")
+                if is_lambda and case.get("rewrite"):
+                    # the module first holds another lambda at the same place (same number of lines); a cells is
+                    # made from it, then the file is rewritten and the module reloaded
+                    decoy = src[:src.rindex("fn = ") if "fn0, fn" not in src else src.rindex("fn0, fn")]
+                    decoy += "fn = lambda x=0, y=0: 12345" + "\n" * (src.count("\n") - decoy.count("\n"))
+                    with open(mpath, "w") as f:
+                        f.write(decoy)
+                    sys.path.insert(0, tmp)
+                    try:
+                        mod = importlib.import_module(modname)
+                        s.new_cells("decoy", mod.fn)
+                        with open(mpath, "w") as f:
+                            f.write(src)
+                        st_ = os.stat(mpath)
+                        os.utime(mpath, (st_.st_atime + 10, st_.st_mtime + 10))
+                        importlib.invalidate_caches()
+                        mod = importlib.reload(mod)
+                    finally:
+                        sys.path.remove(tmp)
+                else:
+                    with open(mpath, "w") as f:
+                        f.write(src)
+                    sys.path.insert(0, tmp)
+                    try:
+                        mod = importlib.import_module(modname)
+                    finally:
+                        sys.path.remove(tmp)
                 func = getattr(mod, "fn" if is_lambda else case["name"])
                 c = s.new_cells(name, func)
         except Exception as exc:
